@@ -679,6 +679,10 @@ def register_model(fn, model=None):
 _KEEP: list = []
 
 
+def callable_natively(k):
+    return callable(k) and not isinstance(k, (Model, FuncVal, BoundMethod, PartialVal))
+
+
 def native_call(interp, f, args, kwargs):
     if isinstance(getattr(f, "__self__", None), str):
         # string formatting of symbolic values (error messages): placeholders
@@ -688,6 +692,12 @@ def native_call(interp, f, args, kwargs):
             return f(*args, **kwargs)
         except (ValueError, TypeError, IndexError, KeyError):
             return "<formatted>"
+    if getattr(f, "__name__", "") == "sort" and isinstance(getattr(f, "__self__", None), list) and kwargs.get("key") is not None and not callable_natively(kwargs["key"]):
+        lst = f.__self__
+        keys = [interp.call(kwargs["key"], [x], {}) for x in lst]
+        order = sorted(range(len(lst)), key=lambda i: keys[i], reverse=bool(kwargs.get("reverse", False)))    # comparisons of symbolic keys fork
+        lst[:] = [lst[i] for i in order]
+        return None
     nh = getattr(interp, "native_hooks", None)
     if nh:
         h = nh.get(id(f))
@@ -1259,10 +1269,37 @@ def make_externals(interp):
         "product": Model(it_product, "product"), "accumulate": Model(it_accumulate, "accumulate"),
         "combinations": Model(it_combinations, "combinations"), "chain": Model(it_chain, "chain"),
     })
+    import bisect as _bisect
+
+    def b_bisect_left(interp, a, x, lo=0, hi=None):
+        """bisect.bisect_left on a list / deque with symbolic entries: the comparisons fork (same algorithm as the C one)"""
+        hi = len(a) if hi is None else hi
+        while lo < hi:
+            mid = (lo + hi) // 2
+            if interp.truth(compare(a[mid], x, "<")):
+                lo = mid + 1
+            else:
+                hi = mid
+        return lo
+
+    def b_bisect_right(interp, a, x, lo=0, hi=None):
+        hi = len(a) if hi is None else hi
+        while lo < hi:
+            mid = (lo + hi) // 2
+            if interp.truth(compare(x, a[mid], "<")):
+                hi = mid
+            else:
+                lo = mid + 1
+        return lo
+    register_model(_bisect.bisect_left, b_bisect_left)
+    register_model(_bisect.bisect_right, b_bisect_right)
+    register_model(_bisect.bisect, b_bisect_right)
+    E["bisect"] = LibModule("bisect", _bisect, {})
     E["operator"] = LibModule("operator", operator, {
         "mul": Model(lambda interp, a, b: interp.binop(ast.Mult, a, b), "mul"),
         "add": Model(lambda interp, a, b: interp.binop(ast.Add, a, b), "add"),
         "sub": Model(lambda interp, a, b: interp.binop(ast.Sub, a, b), "sub"),
+        "attrgetter": Model(lambda interp, name: Model(lambda interp2, o: interp2.getattr(o, name), f"attrgetter({name})"), "attrgetter"),
     })
 
     def c_deepcopy(interp, v, memo=None):
